@@ -94,7 +94,7 @@ ColsCmp(dcs, ecs, at) ==
 \* text row: [viol, floats]
 TextRowCmp(p, exp, at) ==
   LET tc == TextCells(p, 1, << >>) IN
-  IF ~tc.ok THEN [viol |-> {V("C06", at, "text row does not parse as length-encoded cells")}, floats |-> << >>]
+  IF ~tc.ok THEN [viol |-> {V("C06", at, "text row does not parse as length-encoded cells"), V("C03", at, "malformed text row (does not parse as length-encoded cells)")}, floats |-> << >>]
   ELSE IF Len(tc.cells) # Len(exp) THEN [viol |-> {V("C03", at, "text row has a wrong number of cells")}, floats |-> << >>]
   ELSE LET chk == [i \in 1..Len(exp) |-> TextCellCheck(tc.cells[i], exp[i])] IN
        [viol |-> {V(IF exp[i].t = "int" THEN "C06" ELSE "C06", at, chk[i]) : i \in {j \in 1..Len(exp) : chk[j] \notin {"", "float"}}},
@@ -103,7 +103,7 @@ TextRowCmp(p, exp, at) ==
 RECURSIVE BinCells(_, _, _, _, _, _)
 \* walk columns k..n of a binary row; returns set of violations
 BinCells(p, i, k, cols, exp, at) ==
-  IF k > Len(cols) THEN (IF i = Len(p) + 1 THEN {} ELSE {V("C07", at, "binary row has trailing bytes")})
+  IF k > Len(cols) THEN (IF i = Len(p) + 1 THEN {} ELSE {V("C07", at, "binary row has trailing bytes"), V("C03", at, "malformed binary row (trailing bytes)")})
   ELSE LET nbit == k + 1   \* bit (k-1)+2 of the bitmap, bitmap starts at p[2]
            isnull == (p[2 + (nbit \div 8)] \div (2 ^ (nbit % 8))) % 2 = 1
            e == exp[k]
@@ -111,9 +111,12 @@ BinCells(p, i, k, cols, exp, at) ==
             (IF e.t = "null" THEN {} ELSE {V("C07", at, "NULL bit set for a non-NULL cell")}) \cup BinCells(p, i, k + 1, cols, exp, at)
           ELSE IF e.t = "null" THEN {V("C07", at, "NULL cell not marked in the bitmap")}
           ELSE LET c == BinCellAt(p, i, cols[k].ty, cols[k].fl) IN
-            IF ~c.ok THEN {V("C07", at, "binary cell undecodable for its column type")}
+            IF ~c.ok THEN {V("C07", at, "binary cell undecodable for its column type"), V("C03", at, "malformed binary row (cell undecodable)")}
             ELSE (IF Compat(e, cols[k].ty) = "carries" /\ ~BinMatch(c.d, e)
-                  THEN {V(IF e.t = "int" THEN "C15" ELSE "C07", at, "binary value differs from the value written")} ELSE {})
+                  THEN {V(IF e.t = "int" THEN "C15" ELSE "C07", at, "binary value differs from the value written")}
+                       \cup (IF e.t = "int" /\ ~InRange(MathOf(e.le, e.s), ColRange(cols[k].ty, cols[k].fl))
+                             THEN {V("C07", at, "an integer the column cannot represent was accepted and encoded as something else")} ELSE {})
+                  ELSE {})
                  \cup BinCells(p, c.next, k + 1, cols, exp, at)
 \* the decoded column definitions are used for types/flags, exactly as a client does
 BinRowCmp(p, dcols, exp, at) ==
